@@ -49,7 +49,7 @@ manifest = {
                  "kind_free_text": "Coq 8.16 theorems about hand-written Gallina models (coq/), tied to the Rust by a differential correspondence run (harness/ vs vm_compute of the model) on every invocation; direct property oracles on the implementation to find replays"}],
     "checks": checks,
     "not_applicable": not_applicable,
-    "notes": "See DESIGN.md. known findings: known_findings.json. Seeded breaking changes: seeded/.",
+    "notes": "See DESIGN.md. known findings: known_findings/<id>.json. Seeded breaking changes: seeded/.",
 }
 json.dump(manifest, open(os.path.join(HERE, "MANIFEST.json"), "w"), indent=1)
 print("claimed:", sorted(claimed))
